@@ -28,6 +28,7 @@ func init() {
 			{Name: "skip-before-push", File: "extractor/filesystem/filesystem.go", Old: "		wc.dirsVisited++\n		if wc.useGitignore {", New: "		wc.dirsVisited++\n		if wc.shouldSkipDir(path) {\n			return fs.SkipDir\n		}\n		if wc.useGitignore {", Rule: "D5-balanced", Site: "push"},
 			{Name: "append-drops-findings", File: "inventory/inventory.go", Old: "		i.Findings = append(i.Findings, o.Findings...)\n", New: "", Rule: "D3-per-root", Site: "Append"},
 		},
+		Neutral: handleFileNeutral,
 	})
 }
 
